@@ -232,6 +232,19 @@ def getitem(base: T, idx: T) -> T:
         if isinstance(c_, T) and c_.op == "const" and isinstance(c_.args[0], (int, float)) and not isinstance(c_.args[0], bool) \
                 and isinstance(a_, T) and a_.op not in ("const",):
             return mk("binop", base.args[0], getitem(a_, idx), c_)
+    if idx.op == "call" and idx.args[0].op == "name" and idx.args[0].args[0] == "builtins.slice" and \
+            2 <= len(idx.args) <= 4 and not any(a.op == "kw" for a in idx.args[1:]):
+        # X[slice(a, b)] is X[a:b]
+        b_ = list(idx.args[1:])
+        if len(b_) == 1:
+            b_ = [NONE, b_[0], NONE]
+        elif len(b_) == 2:
+            b_ = [b_[0], b_[1], NONE]
+        return getitem(base, mk("slice", *b_))
+    if base.op == "call" and base.args[0].op == "name" and base.args[0].args[0] == "builtins.zip" and idx.op != "slice" \
+            and len(base.args) >= 2 and not any(a.op in ("kw", "star") for a in base.args[1:]) and \
+            not (idx.op == "const" and not (isinstance(idx.args[0], int) and idx.args[0] >= 0)):
+        return mk("tuple", *[getitem(_peel_list(a), idx) for a in base.args[1:]])     # zip(A, B)[k] == (A[k], B[k])
     if base.op == "getitem" and base.args[1].op == "slice" and idx.op == "const" and isinstance(idx.args[0], int) \
             and not isinstance(idx.args[0], bool) and idx.args[0] >= 0:
         lo, hi, st = base.args[1].args
@@ -360,6 +373,19 @@ def _running_factorial(base: T) -> bool:
         r.args[0].args[0] == "builtins.range" and len(r.args) == 3 and r.args[1].op == "const" and r.args[1].args[0] == 1
 
 
+def _strided_count(lo: T, hi: T, st: T) -> Optional[T]:
+    """number of values of range(0, N * s, s)  (== N), else None"""
+    if not (lo.op == "const" and lo.args[0] == 0):
+        return None
+    if hi.op == "binop" and hi.args[0] == "*":
+        a, b = hi.args[1], hi.args[2]
+        if b is st:
+            return a
+        if a is st:
+            return b
+    return None
+
+
 def sequence_length(t: T) -> Optional[T]:
     """len(t) as a term when the source fixes it: range(a, b) -> b - a, accumulate(R, f) -> len(R), list(X) -> len(X)"""
     t = _peel_list(t)
@@ -388,12 +414,31 @@ def sequence_length(t: T) -> Optional[T]:
             return sequence_length(pos[0])
         if nm == "builtins.enumerate" and len(pos) == 1 and len(t.args) == 2:
             return sequence_length(pos[0])
+        if nm == "builtins.zip" and pos and len(pos) == len(t.args) - 1:
+            for a_ in pos:               # the shortest argument; the ones of unknown length are taken to be as long
+                ln_ = sequence_length(a_)
+                if ln_ is not None:
+                    return ln_
+            return None
+        if nm == "builtins.range" and len(pos) == 3 and len(t.args) == 4:
+            n_ = _strided_count(pos[0], pos[1], pos[2])
+            if n_ is not None:
+                return n_
     return None
 
 
 def setitem(base: T, key: T, value: T) -> T:
     if base.op == "setitem" and base.args[1] is key:
         base = base.args[0]
+    if base.op == "dict" and key.op == "const" and len(base.args) % 2 == 0 and all(
+            base.args[j].op == "const" for j in range(0, len(base.args), 2)):
+        # D = {...literal keys...}; D[k] = v   is the display with that entry replaced / added
+        items = list(base.args)
+        for j in range(0, len(items), 2):
+            if items[j] is key:
+                items[j + 1] = value
+                return mk("dict", *items)
+        return mk("dict", *items, key, value)
     if base.op == "list" and key.op == "const" and isinstance(key.args[0], int):
         i = key.args[0]
         if 0 <= i < len(base.args):
@@ -434,6 +479,20 @@ def _canon_where(t: T) -> T:
     f = t.args[0]
     if not (f.op == "name" and f.args[0].split(".")[-1] == "where") or len(t.args) != 4:
         return t
+    if not any(isinstance(z, T) and z.op == "kw" for z in t.args[1:]):
+        # where(not c, a, b) == where(c, b, a): the negated selector written the positive way
+        c0 = t.args[1]
+        for _ in range(3):
+            neg = None
+            if c0.op == "call" and c0.args[0].op == "name" and c0.args[0].args[0].split(".")[-1] == "logical_not" and \
+                    len(c0.args) == 2 and c0.args[1].op != "kw":
+                neg = c0.args[1]
+            elif c0.op == "unop" and c0.args[0] in ("~", "not") and isinstance(c0.args[1], T):
+                neg = c0.args[1]
+            if neg is None:
+                break
+            t = mk("call", f, neg, t.args[3], t.args[2])
+            c0 = neg
     c, a, x = t.args[1], t.args[2], t.args[3]
     if not (isinstance(a, T) and a.op == "const" and a.args[0] in (0, 0.0)) or any(
             isinstance(z, T) and z.op == "kw" for z in t.args[1:]):
@@ -670,6 +729,11 @@ def is_unnamed_helper(callee) -> bool:
     except Exception:
         pass
     return True
+
+
+def dotted_name(node) -> Optional[str]:
+    from .model import dotted
+    return dotted(node)
 
 
 def walker_state_glue(callee) -> bool:
@@ -1027,7 +1091,7 @@ class Evaluator:
                 res.append(x)
         return res
 
-    def _loop(self, fr, st, header_term: T, target, src: Optional[T] = None):
+    def _loop(self, fr, st, header_term: T, target, src: Optional[T] = None, stride: Optional[T] = None):
         lid = st.lineno
         assigned = self._assigned_names(st.body)
         inits = {}
@@ -1041,7 +1105,9 @@ class Evaluator:
         self.emit(fr, "loop_enter", st.lineno, header_term)
         if target is not None:
             ix_ = mk("iter", header_term, lid)
-            self.assign(fr, target, mk("tuple", ix_, getitem(src, ix_)) if src is not None else ix_, st.lineno)
+            val_ = mk("tuple", ix_, getitem(src, ix_)) if src is not None else (
+                mk("binop", "*", ix_, stride) if stride is not None else ix_)
+            self.assign(fr, target, val_, st.lineno)
         saved_term = fr.env.terminated
         saved_path = fr.path
         self.exec_block(fr, st.body)
@@ -1069,6 +1135,16 @@ class Evaluator:
             if ln_ is None:
                 ln_ = call(name("builtins.len"), X)
             return call(name("builtins.range"), ln_), X
+        return None
+
+    @staticmethod
+    def _strided_as_index_loop(it: T):
+        """for x in range(0, N * s, s)  ==  for k in range(N): x = k * s   ->  (range(N), s)"""
+        if it.op == "call" and func_name(it) == "builtins.range" and len(it.args) == 4 and not any(
+                a.op == "kw" for a in it.args[1:]):
+            n_ = _strided_count(it.args[1], it.args[2], it.args[3])
+            if n_ is not None:
+                return call(name("builtins.range"), n_), it.args[3]
         return None
 
     @staticmethod
@@ -1236,6 +1312,10 @@ class Evaluator:
         en_ = self._enumerate_as_index_loop(it)
         if en_ is not None:
             self._loop(fr, st, en_[0], st.target, src=en_[1])
+            return
+        sr_ = self._strided_as_index_loop(it)
+        if sr_ is not None:
+            self._loop(fr, st, sr_[0], st.target, stride=sr_[1])
             return
         self._loop(fr, st, it, st.target)
 
@@ -1537,6 +1617,13 @@ class Evaluator:
             names = self.record_fields(base.args[0])
             if names is not None and a in names:
                 return base.args[1 + names.index(a)]
+            # a read-only property of the record: its body evaluated with self bound to the record
+            pm = self.p.lookup_method(base.args[0], a)
+            if pm is not None and any((dotted_name(d_) or "").split(".")[-1] in ("property", "cached_property")
+                                      for d_ in pm.decorators) and self._depth < self.MAX_INLINE_DEPTH:
+                r_ = self.inline_function(fr, mk("attr", base, a), pm, base.args[0], [], [], getattr(pm, "lineno", 0))
+                if r_ is not None:
+                    return r_
         elif base.op in ("phi", "ifexp") and len(base.args) == 3 and all(
                 isinstance(x, T) and x.op == "record" for x in base.args[1:]):
             return mk(base.op, base.args[0], self.attr(fr, base.args[1], a), self.attr(fr, base.args[2], a))
@@ -1549,6 +1636,13 @@ class Evaluator:
                 names = self.record_fields(lay[1])
                 if names is not None and a in names:
                     return getitem(base, const(names.index(a)))
+        if base.op not in ("record", "mod", "name", "cls", "fn", "const") and not a.startswith("__"):
+            c_ = self.static_type(base, fr) if fr is not None else None
+            if c_ is not None and base.op != "call":
+                names = self.record_fields(c_)
+                ci_ = self.p.classes.get(c_)
+                if names is not None and a in names and ci_ is not None and getattr(ci_, "is_namedtuple", False):
+                    return getitem(base, const(names.index(a)))      # a NamedTuple-typed value: field == position
         if base.op == "mod":
             target = self.p.modules[base.args[0]]
             r = self.p._resolve_in_module(target, [a])
@@ -1750,6 +1844,16 @@ class Evaluator:
                     self.assign(sub, n.generators[0].target, el, n.lineno)
                     out.append(self.eval(sub, elt_nodes[0]))
                 return mk("list", *out)
+        if kind == "dict" and len(n.generators) == 1 and not n.generators[0].ifs and len(elt_nodes) == 2:
+            # {k: f(v) for k, v in <a table of literals>.items()}: one entry per row of the table
+            seq = self.static_elements(self.eval(sub, n.generators[0].iter))
+            if seq is not None and 0 < len(seq) <= 16:
+                items = []
+                for el in seq:
+                    self.assign(sub, n.generators[0].target, el, n.lineno)
+                    items += [self.eval(sub, elt_nodes[0]), self.eval(sub, elt_nodes[1])]
+                if all(items[j].op == "const" for j in range(0, len(items), 2)):
+                    return mk("dict", *items)
         gens = []
         for g in n.generators:
             it = self.eval(sub, g.iter)
@@ -1766,6 +1870,14 @@ class Evaluator:
                 it, src_ = cm_
                 ix_ = mk("iter", it, n.lineno)
                 self.assign(sub, g.target, getitem(src_, ix_), n.lineno)
+                conds = [self.eval(sub, c) for c in g.ifs]
+                gens.append(mk("gen", it, *conds))
+                continue
+            sr_ = self._strided_as_index_loop(it)
+            if sr_ is not None:
+                it, step_ = sr_
+                ix_ = mk("iter", it, n.lineno)
+                self.assign(sub, g.target, mk("binop", "*", ix_, step_), n.lineno)
                 conds = [self.eval(sub, c) for c in g.ifs]
                 gens.append(mk("gen", it, *conds))
                 continue
@@ -1851,6 +1963,14 @@ class Evaluator:
                     r = self.inline_function(fr, f, callee, rc, args, kws, line)
                     if r is not None:
                         return r
+        if f.op == "attr" and f.args[1] in ("items", "keys", "values") and not args and not kws and \
+                f.args[0].op == "dict" and len(f.args[0].args) % 2 == 0 and not any(
+                    x.op == "dstar" for x in f.args[0].args):
+            d_ = f.args[0].args
+            ks_, vs_ = d_[0::2], d_[1::2]
+            if f.args[1] == "items":
+                return mk("list", *[mk("tuple", k_, v_) for k_, v_ in zip(ks_, vs_)])
+            return mk("list", *(ks_ if f.args[1] == "keys" else vs_))
         if f.op in ("itemgetter", "attrgetter") and len(args) == 1 and not kws and args[0].op not in ("star",):
             # itemgetter(k1, k2, ..)(obj) == (obj[k1], obj[k2], ..)   (a single key gives the bare item)
             if f.op == "itemgetter":
@@ -2050,7 +2170,7 @@ class Evaluator:
             if a.vararg or a.kwarg:
                 return None
             names = [p.arg for p in list(a.posonlyargs) + list(a.args)]
-        elif F0.op in ("attr", "fn"):
+        elif F0.op in ("attr", "fn", "cls"):
             try:
                 cands = self.resolve_callees(F0, fr)
             except Exception:
@@ -2061,7 +2181,7 @@ class Evaluator:
                     if any(q.kind in ("vararg", "kwarg") for q in callee.params):
                         return None
                     pp = [q.name for q in callee.pos_params()]
-                    if F0.op == "attr" and not callee.is_staticmethod and pp:
+                    if (F0.op == "attr" and not callee.is_staticmethod and pp) or (F0.op == "cls" and pp and pp[0] == "self"):
                         pp = pp[1:]
                     sigs.add(tuple(pp))
                 if len(sigs) == 1:
@@ -2359,6 +2479,13 @@ class Evaluator:
         sub.self_class = clo.frame.self_class
         sub.path, sub.loops = fr.path, fr.loops
         sub.env.vars.update(binding)
+        # a parameter annotated with a record class of the package: its fields are its positions
+        if not isinstance(node, ast.Lambda):
+            for p_ in list(a.posonlyargs) + list(a.args) + list(a.kwonlyargs):
+                if p_.annotation is not None and p_.arg in binding:
+                    c_ = self.p.annotation_class(clo.frame.mod, p_.annotation)
+                    if c_ is not None and self.record_fields(c_) is not None and binding[p_.arg].op not in ("record",):
+                        sub.types[binding[p_.arg]] = c_
         self._depth += 1
         self.emit(fr, "enter_closure", line, (clo.name, tuple(binding.items())))
         try:
